@@ -92,7 +92,9 @@ check("C12", "exploration",
       "grids plus seeded random modules. The deductive part - ground obligations fixing the dialect constants and the "
       "non-overridable PDS3 line end/delimiter, and T_enc contracts on the string renderings (only symbol strings are "
       "single-quoted: no apostrophe, no format effector, at most half the width, printable; quoting rule; first quote character "
-      "not contained) - is reported separately and not counted as deciding the property.",
+      "not contained; PVLEncoder.encode returns a text only if every character is allowed by the grammar; begin / end statements of a "
+      "block; ODL names of at most 30 identifier characters; ODL sequences non-empty, at most two-dimensional, of scalars; units only "
+      "after a non-bool number) - is reported separately and not counted as deciding the property.",
       "Bounded: module universe and option grid as recorded in the evidence. Seven recorded findings (known_findings.json) are "
       "carved out by key and replayed every run.",
       "bounded conformance reader as labelled stand-in (no contract expresses textwrap's line breaking); ground obligations on dialect constants and SMT contracts (T_enc) on the string renderings",
@@ -204,14 +206,18 @@ BOUNDED = {
          "(reported separately, not lifting the level): decoder contracts (T_dec), regex-language obligations (decode_non_decimal's "
          "language == the dialect's based-integer syntax, prefix recognised by the lexer's pattern, decimal syntax accepted, "
          "deviation exactly the recorded one) and the T_lex contracts of the lexer's per-character helpers (lex_continue's "
-         "look-ahead exceptions); the lexer's main loop and the lexer+parser composition are bounded.", "DESIGN.md §3 C03"),
+         "look-ahead exceptions, main-loop step) and of decode_non_decimal for the three decoder families (value = int(sign+digits, "
+         "base=int(radix)) of the matching pattern's groups; Omni: the written sign position, not both); the induction over the "
+         "lexer loop and the lexer+parser composition are bounded.", "DESIGN.md §3 C03"),
  "C04": ("exploration", "Metamorphic: every adjacent token-kind pair x every separator (each white-space character, comments, mixtures, "
          "empty where optional) and random whole-label layouts x 5 parser configurations give the same module. A relational "
          "claim about two runs of lexer+parser; no contract on one call expresses it. Discharged alongside (not lifting the level): "
          "T_lex contracts of the eight per-character helper functions of pvl/lexer.py against spec functions taken from the "
          "statement (white space dropped only outside preserve states; inside a comment only its own end delimiter is significant; "
-         "quotes, units and based integers keep every character), and the same contract objects evaluated at run time on the real "
-         "functions.", "DESIGN.md §3 C04"),
+         "quotes, units and based integers keep every character), a one-iteration contract of the main loop of lexer() (white "
+         "space / a reserved or disallowed character / the end of the text after a lexeme yields it; nothing is yielded for an empty "
+         "lexeme or during a look-ahead exception), Token.is_comment, and the same contract objects evaluated at run time on the "
+         "real functions. Not proved: the induction over the loop (that the yielded sequence is the tokenisation).", "DESIGN.md §3 C04"),
  "C14": ("exploration", "Decode and encode-decode grids against an oracle built from the written fields: every day of years 0001-9999 "
          "in both date forms (thorough; boundary years in quick), every field boundary in every time form, every microsecond "
          "value for the PDS3 rule, every zone offset in 15/30-minute steps in every spelling x 5 dialect configurations; "
@@ -226,15 +232,18 @@ BOUNDED = {
          "grammar/decoder pairs: one class per token text, predicates consistent with it, and the writer/reader obligation "
          "(needs_quotes false => decodes to the identical string; encode_string round-trips) for the four encoders. Discharged "
          "alongside: T_dec cascade/predicate contracts, Token construction-site obligations, and regex-language obligations that the "
-         "acceptance languages of the value classes are pairwise disjoint in every dialect (for all strings).", "DESIGN.md §3 C17"),
+         "acceptance languages of the value classes are pairwise disjoint in every dialect (for all strings), T_enc contracts of every "
+         "Token predicate, of decode_unquoted_string (PVL and ODL families), is_identifier and for_try_except, and of the encoders' "
+         "needs_quotes / encode_string (a string is written bare only if it is an unquoted string for the encoder's own grammar and decoder).", "DESIGN.md §3 C17"),
 }
 for pid, (cat, text, ref) in BOUNDED.items():
     check(pid, cat, text,
           "Bounded: the measured bounds are in the evidence file; recorded findings (known_findings.json) are carved out by key "
           "and replayed on every run. Oracles are independent of the library (spec functions written from the statement).",
           "bounded run of an independent oracle as labelled stand-in (the property is relational over lexer, parser, decoder and "
-          "encoder; the lexer's main loop is outside the verifier's reach); contract obligations on the decoder (T_dec), the lexer helpers "
-          "(T_lex) and the grammar's regular languages (z3 regex back end) discharged and reported separately",
+          "encoder; the inductive composition of the lexer's steps and textwrap-based line assembly are outside the verifier's reach); "
+          "contract obligations on the decoders (T_dec, T_off, T_based), the lexer helpers and loop step (T_lex), the Token predicates and "
+          "encoder functions (T_enc, T_time) and the grammar's regular languages (z3 regex back end) discharged and reported separately",
           ref)
 
 
@@ -252,7 +261,10 @@ def main():
                    baseline_off_cmd="cd /repo && /venv/bin/python -m pytest -ra -q -p no:cacheprovider --timeout=900 --continue-on-collection-errors",
                    source_commits=[], add_only=True),
         engines=[dict(name="pyvc", path="vf/pyvc", serves_properties=sorted(CHECKS),
-                      kind_free_text="AST->SMT verification-condition generator with sidecar contracts (z3), frame/allocation-site checker, regex extractor; bounded run-time contract drivers as labelled stand-ins")],
+                      kind_free_text="AST->SMT verification-condition generator over the real source with sidecar contracts (z3): theories T_int T_str T_seq T_tok "
+                      "T_dec T_lex T_enc T_time T_off T_based, search-loop and one-iteration rules, counter-model refutation and native replay; "
+                      "frame / initialisation / allocation-site checker; regex-language back end (z3 regex solver); Lean re-check of the sequence "
+                      "axioms; the same contracts evaluated at run time and bounded drivers with independent oracles as labelled stand-ins")],
         checks=[CHECKS[k] for k in sorted(CHECKS)],
         notes="Exit codes of ./check: 0 held / 1 violation / 2 undecided / 3 checker error. known_findings.json lists recorded defects and fixed: entries.",
         not_applicable=na,
